@@ -724,6 +724,8 @@ size_t rtosc_print_arg_vals(const rtosc_arg_val_t *args, size_t n,
     size_t sep_len = strlen(opt->sep);
     char* last_sep = buffer - 1;
     STACKALLOC(rtosc_arg_val_t, args_converted, n); // only used for range conversion
+    if(bs)
+        *buffer = 0; // an empty list prints as empty string
 
     for(size_t i = 0; i < n;)
     {
